@@ -2828,6 +2828,13 @@ func publishedSlicePath(p *Prog, fi *FuncInfo, outer *Flat) string {
 				return true
 			})
 		}
+		// the whole slice handed over at once: storeToTx(dst, files...)
+		ast.Inspect(body, func(x ast.Node) bool {
+			if c, ok := x.(*ast.CallExpr); ok && p.callIs(fi.Pkg, c, kStoreToTx) && c.Ellipsis != token.NoPos && len(c.Args) > 0 {
+				pubSlice = outer.CanonPath(c.Args[len(c.Args)-1])
+			}
+			return true
+		})
 	}
 	return pubSlice
 }
